@@ -291,7 +291,10 @@ def _profile_functions(fn):
 
 
 def run_symbolic(sc: Scenario, tier: str):
+    import logging
     import z3
+
+    logging.disable(logging.WARNING)
     from . import symx, shadow
 
     shadow.install(sc.shadows)
@@ -366,6 +369,9 @@ def run_symbolic(sc: Scenario, tier: str):
 
 
 def run_concrete(sc: Scenario, values: dict):
+    import logging
+
+    logging.disable(logging.WARNING)
     ctx = Ctx("conc", sc, values=values)
     rec = {"exception": None}
     try:
